@@ -126,7 +126,8 @@ def samples_from(traces, limit=3):
                         ev = json.loads(line)
                         out.append({"case": ev["id"], "profile": ev["profile"], "problem": ev["p"],
                                     "packages": len(ev["u"]["pkg"]), "solvables": len(ev["u"]["solv"]),
-                                    "mode": ev["cfg"]["mode"], "universe": ev["u"]})
+                                    "mode": ev.get("cfg", {}).get("mode", ""), "seeds": ev.get("seeds", {}),
+                                    "universe": ev["u"]})
                         break
         except OSError:
             pass
